@@ -105,19 +105,19 @@ theorem exec_leaves_no_state_behind (fuel ti : Nat) (ctx : Env) (σ : ES) :
 The interpreter is written with a fuel argument (the recursion bound Lean needs); every theorem
 about it is stated for any fuel.  The two theorems below say that the fuel is not part of the
 meaning: an answer other than "ran out of fuel" — output, error and final state — is the answer for
-every larger fuel.  `CompileMono` (the same statement for the compiler, which a computed
-`include` calls at execution time) is its only premise. -/
+every larger fuel.  The same holds for the compiler (`compile_answer_is_fuel_independent`), which
+a computed `include` calls at execution time. -/
 
 /-- **More fuel never changes an answer** (one step). -/
-theorem more_fuel_same_answer (hP : CompileMono T cfg) (fuel ti : Nat) (ctx : Env) (σ : ES)
+theorem more_fuel_same_answer (fuel ti : Nat) (ctx : Env) (σ : ES)
     (h : NotDiv ((executeTpl T cfg g fuel ti ctx).run σ)) :
     (executeTpl T cfg g (fuel + 1) ti ctx).run σ = (executeTpl T cfg g fuel ti ctx).run σ := by
-  have := (allLe T cfg g hP fuel).executeTpl ti ctx
+  have := (allLe T cfg g (compileMono T cfg) fuel).executeTpl ti ctx
   unfold Le at this
   exact this σ h
 
 /-- **… for every larger fuel**, for whole executions, single nodes and expressions. -/
-theorem answer_is_fuel_independent (hP : CompileMono T cfg) (n m : Nat) (hnm : n ≤ m) (ti : Nat) (ctx : Env) (σ : ES)
+theorem answer_is_fuel_independent (n m : Nat) (hnm : n ≤ m) (ti : Nat) (ctx : Env) (σ : ES)
     (h : NotDiv ((executeTpl T cfg g n ti ctx).run σ)) :
     (executeTpl T cfg g m ti ctx).run σ = (executeTpl T cfg g n ti ctx).run σ := by
   induction m with
@@ -126,23 +126,40 @@ theorem answer_is_fuel_independent (hP : CompileMono T cfg) (n m : Nat) (hnm : n
     by_cases hk : n ≤ k
     · have e := ih hk
       rw [← e] at h
-      rw [more_fuel_same_answer T cfg g hP k ti ctx σ h, e]
+      rw [more_fuel_same_answer T cfg g k ti ctx σ h, e]
     · have : n = k + 1 := by omega
       subst this; rfl
 
-theorem node_answer_is_fuel_independent (hP : CompileMono T cfg) (fuel : Nat) (nd : Node) (σ : ES)
+theorem node_answer_is_fuel_independent (fuel : Nat) (nd : Node) (σ : ES)
     (h : NotDiv ((execNode T cfg g fuel nd).run σ)) :
     (execNode T cfg g (fuel + 1) nd).run σ = (execNode T cfg g fuel nd).run σ := by
-  have := (allLe T cfg g hP fuel).execNode nd
+  have := (allLe T cfg g (compileMono T cfg) fuel).execNode nd
   unfold Le at this
   exact this σ h
 
-theorem expression_answer_is_fuel_independent (hP : CompileMono T cfg) (fuel : Nat) (e : Expr) (σ : ES)
+theorem expression_answer_is_fuel_independent (fuel : Nat) (e : Expr) (σ : ES)
     (h : NotDiv ((eval T cfg g fuel e).run σ)) :
     (eval T cfg g (fuel + 1) e).run σ = (eval T cfg g fuel e).run σ := by
-  have := (allLe T cfg g hP fuel).eval e
+  have := (allLe T cfg g (compileMono T cfg) fuel).eval e
   unfold Le at this
   exact this σ h
+
+/-- **The compiler's answer does not depend on the fuel either**: a template compiled from a file
+    (with everything it includes, extends and imports) gives, unless the answer was "out of
+    fuel", the same template tables or the same error with one more unit of fuel. -/
+theorem compile_answer_is_fuel_independent (fuel : Nat) (cs : CState) (name : Bytes)
+    (h : NotOof (fromFile T cfg fuel cs name)) :
+    fromFile T cfg (fuel + 1) cs name = fromFile T cfg fuel cs name := by
+  have key := (allLeD T cfg fuel).fromFile cs name
+  unfold LeP at key
+  exact key h
+
+theorem compile_string_answer_is_fuel_independent (fuel : Nat) (cs : CState) (src : Bytes)
+    (h : NotOof (compileTpl T cfg fuel cs b!"<string>" true src)) :
+    compileTpl T cfg (fuel + 1) cs b!"<string>" true src = compileTpl T cfg fuel cs b!"<string>" true src := by
+  have key := (allLeD T cfg fuel).compileTpl cs b!"<string>" true src
+  unfold LeP at key
+  exact key h
 
 /-- non-vacuity: running out of fuel is the only answer that more fuel changes — with no fuel at
     all the answer *is* "diverge", and it is excluded by `NotDiv` -/
